@@ -28,6 +28,7 @@ Open Scope list_scope.
 
 Inductive pcs :=
 | WIdle      (* created; has not yet passed the inner mutex *)
+| WNew       (* an upgrade future: upgrade() has done its fetch_sub; not yet polled *)
 | WLoad      (* inside poll: about to load the word *)
 | WListen    (* inside poll: saw readers, no listener: about to listen() *)
 | WPoll      (* inside poll: saw readers, has a listener: about to poll it *)
@@ -50,7 +51,7 @@ Record gst := mkG {
 }.
 
 Inductive act :=
-| AEnter (i : nat) (upgrade : bool)  (* fetch_or(WRITER_BIT) of write() / fetch_sub(ONE_READER - WRITER_BIT) of upgrade(), inside a poll *)
+| AEnter (i : nat) (upgrade : bool)  (* fetch_or(WRITER_BIT) of write(), inside its poll / fetch_sub(ONE_READER - WRITER_BIT) of upgrade(), before the first poll of the future it returns *)
 | APoll (i : nat)                    (* a poll of a waiting future starts *)
 | AStep (i : nat)                    (* its next atomic action *)
 | ACancel (i : nat)                  (* the future is dropped between polls *)
@@ -83,7 +84,7 @@ Definition step (bt : bool) (s : gst) (a : act) : gst :=
           | WIdle =>
               if g_act s || (up && (g_rd s =? 0)) then s
               else mkG (if up then g_rd s - 1 else g_rd s) true true (g_ev s) (g_nid s)
-                       (set_nth i (mkF WLoad (flis f) false) (g_futs s)) (g_pend s)
+                       (set_nth i (mkF (if up then WNew else WLoad) (flis f) false) (g_futs s)) (g_pend s)
           | _ => s
           end
       | None => s
@@ -91,7 +92,7 @@ Definition step (bt : bool) (s : gst) (a : act) : gst :=
   | APoll i =>
       match getf s i with
       | Some f => match fpc f with
-                  | WParked => with_fut s i (mkF WLoad (flis f) false)
+                  | WParked | WNew => with_fut s i (mkF WLoad (flis f) false)
                   | _ => s
                   end
       | None => s
@@ -126,7 +127,7 @@ Definition step (bt : bool) (s : gst) (a : act) : gst :=
       match getf s i with
       | Some f => match fpc f with
                   | WIdle => with_fut s i (mkF WGone None false)
-                  | WParked =>   (* PinnedDrop: write_unlock *)
+                  | WParked | WNew =>   (* PinnedDrop: write_unlock *)
                       mkG (g_rd s) false false (g_ev s) (g_nid s) (set_nth i (setpc WCan f) (g_futs s)) (g_pend s)
                   | _ => s
                   end
@@ -152,7 +153,7 @@ Definition run (bt : bool) (readers : N) (nfuts : nat) (sched : list act) : gst 
 (* ---------- the property, as a statement about states ---------- *)
 Definition at_rest (f : fut) : bool :=
   match fpc f with
-  | WIdle | WDone | WGone => true
+  | WIdle | WNew | WDone | WGone => true
   | WParked => negb (fwok f)
   | _ => false
   end.
